@@ -43,7 +43,7 @@ def wf (s : Sess) : Bool :=
 /-- what a label must do to a session that satisfied `wf` -/
 def good (ad : Bool) (s : Sess) (c : Ctl) : Bool :=
   wf c.s && !c.stuck
-  -- a session gains a live upstream connection only when the breaker admitted it
+  -- a session gains a live upstream connection only when the breaker granted it
   && imp (c.s.live && !s.live) ad
   && dRes c.log == b2i c.s.live - b2i s.live
   && dStat .cluster .UpstreamConnectionActive c.log == b2i c.s.live - b2i s.live
@@ -67,7 +67,7 @@ theorem good_accept : ∀ (ad nc : Bool) (hn : Nat), hn < 5 → ∀ (t0 t1 t2 : 
     -- refused, or no try connected ⇒ no upstream connection is held and the downstream connection is closed
     (((!nc && !ad) || (t0 != .ok && t1 != .ok && t2 != .ok)) →
       (sstep ad {} (.accept nc hn t0 t1 t2)).s.live = false ∧ (sstep ad {} (.accept nc hn t0 t1 t2)).s.downClosed = true) ∧
-    -- admitted and the first try connects ⇒ the session is established
+    -- granted and the first try connects ⇒ the session is established
     ((!nc && ad && decide (0 < hn) && t0 == .ok) → (sstep ad {} (.accept nc hn t0 t1 t2)).s.live = true) := by
   decide
 
